@@ -7,6 +7,7 @@ import PoetryVerif.Proofs.PyConvPoetry
 import PoetryVerif.Proofs.PyConvGpc
 import PoetryVerif.Proofs.MarkerLeafCompat
 import PoetryVerif.Proofs.MarkerProjVars
+import PoetryVerif.Proofs.PyConvSplitSound
 set_option linter.unusedSimpArgs false
 set_option linter.unusedVariables false
 
@@ -80,7 +81,9 @@ theorem leafClause_of_comp (E : Env) (X Y Z : Nat) (hE : EnvPy E X Y Z) (l : Lea
   obtain ⟨item, bb, hitem, hmean, hev⟩ := normPair_exact E X Y Z hE s.name s.op lit hop hi
   obtain ⟨b, hb1, hb2⟩ := pyItem_agree E X Y Z hE s.name s.op lit hop hi
   rw [hev] at hb2; injection hb2 with hb2; subst hb2
-  refine ⟨s, item, rfl, hop, by rw [hv]; exact hitem, ?_⟩
+  obtain ⟨item', hitem', hshape⟩ := normPair_shape s.name s.op lit hop hi
+  rw [hitem] at hitem'; injection hitem' with hitem'; subst hitem'
+  refine ⟨s, item, rfl, hop, by rw [hv]; exact hitem, ?_, hshape⟩
   -- the leaf's own truth is the model's value of the item
   have hle : leafEval E (.single s) = bb := by
     simp only [Single.coherent, hsw, hv] at hcoh
@@ -133,19 +136,21 @@ theorem convKey_of_pyNames {n : String} (h : pyNames.contains n = true) : convKe
 /-- **one-sided part against poetry's own evaluation**: if the marker validates to true on the environment of
 `X.Y.Z`, its Python constraint admits `X.Y.Z`. -/
 theorem gpc_upper_validate (E : Env) (X Y Z : Nat) (hE : EnvPy E X Y Z) (S : LeafSpec (leafEval E) (PyG E))
-    (hSp : SplitSound X Y Z) (m : M) (g : VC) (hg : M.Good (PyG E) m) (h : gpc m = .ok g)
+    (m : M) (g : VC) (hg : M.Good (PyG E) m) (h : gpc m = .ok g)
     (hv : M.validate E m = .ok true) : g.allowsPlain (pyV X Y Z) = true := by
+  have hSp := splitSound_holds X Y Z
   rw [M.validate_eq_sem E m (pyG_evaluable E m hg)] at hv
   injection hv with hv
   exact gpc_upper S X Y Z m g hg (fun l hl hk => leafClause_of_comp E X Y Z hE l hl.1 hl.2.1 hk) hSp h hv
 
 /-- **exactness against poetry's own evaluation** for python-only markers -/
 theorem gpc_exact_validate (E : Env) (X Y Z : Nat) (hE : EnvPy E X Y Z) (S : LeafSpec (leafEval E) (PyG E))
-    (hSp : SplitSound X Y Z) (m : M) (g : VC) (hg : M.Good (PyG E) m)
+    (m : M) (g : VC) (hg : M.Good (PyG E) m)
     (hvars : ∀ n ∈ M.vars m, pyNames.contains n = true)
     (HR : ReparseNames)
     (hne : ∀ d, dnf defaultFuel [] m = .ok d → d ≠ .empty)
     (h : gpc m = .ok g) : M.validate E m = .ok (g.allowsPlain (pyV X Y Z)) := by
+  have hSp := splitSound_holds X Y Z
   rw [M.validate_eq_sem E m (pyG_evaluable E m hg)]
   congr 1
   refine gpc_exact S X Y Z m g hg hvars (fun l hl hk => leafClause_of_comp E X Y Z hE l hl.1 hl.2.1 hk) hSp hne ?_ h
